@@ -192,6 +192,8 @@ impl Swarm {
 pub struct Gen {
     pub sw: Swarm,
     pub rng: Rng,
+    /// sparse observation of calc_outcome in this run (decided once, emitted as the first op)
+    sparse: Option<bool>,
     /// the previous owner step was a pop or a special move: a good place for a fault
     hot: bool,
 }
@@ -205,7 +207,7 @@ fn uci_text(m: &RMove) -> String {
 
 impl Gen {
     pub fn new(sw: Swarm, rng: Rng) -> Gen {
-        Gen { sw, rng, hot: false }
+        Gen { sw, rng, hot: false, sparse: None }
     }
 
     fn choose_legal(&mut self, info: &Info, w: &World) -> Option<RMove> {
@@ -882,6 +884,16 @@ impl Gen {
 
     /// The scheduler: picks a runnable task and one operation from its alphabet.
     pub fn next_op(&mut self, w: &mut World, prop: u32) -> Op {
+        if self.sparse.is_none() {
+            let sparse = prop == C14 && self.rng.chance(35);
+            self.sparse = Some(sparse);
+            if sparse {
+                return Op::SparseOutcomeQueries;
+            }
+        }
+        if self.sparse == Some(true) && self.rng.chance(6) {
+            return Op::QueryOutcome;
+        }
         let mut wts = self.sw.w;
         if w.searchers.is_empty() {
             wts[CAT_SSTEP] = 0;
@@ -914,7 +926,7 @@ impl Gen {
             CAT_POP => Op::Pop,
             CAT_OUTCOME => self.gen_outcome(w, prop),
             CAT_FORK => Op::Fork,
-            CAT_EQ => Op::EqTwin(self.rng.below(8) as u8),
+            CAT_EQ => Op::EqTwin((self.rng.below(10) + 10 * self.rng.below(200)) as u16),
             CAT_REBUILD_MOVES => Op::RebuildMoves,
             CAT_REBUILD_UCI => Op::RebuildUci,
             CAT_BOARD_MAKE => {
